@@ -1,7 +1,7 @@
 """C08 Downlink local state equals the fold of what it received."""
 import collections
 from mirlib import describe_rvalue, AnchorMissing, describe_call, describe_operand, dom_guards, guards, _suffix_match
-from rules.common import aggregates, owner_def, panic_sites, where
+from rules.common import assign_roles_by_type, aggregates, owner_def, panic_sites, where
 
 META = {
     "explanation": (
@@ -27,9 +27,21 @@ def variant_of(g, scrut_word):
     return None
 
 
+# canonical names for the locals of the client tasks, by type (so that the rules do not depend on what the source calls them)
+CLIENT_ROLES = [
+    ("state", lambda t: t.startswith("swimos_downlink::task::map::State<") or t.startswith("swimos_downlink::task::value::State<")),
+    ("notification", lambda t: "::DownlinkNotification<" in t and not t.startswith("core::") and not t.startswith("(")),
+    ("event", lambda t: "task::map::IoEvent<" in t or "task::value::IoEvent<" in t or t.startswith("swimos_agent_protocol::model::MapMessage<")),
+    ("map", lambda t: t.startswith("alloc::collections::btree::map::BTreeMap<")),
+]
+
+
 def run(ctx):
     dl = ctx.crate(DL)
     ag = ctx.crate(AG)
+    for b in dl.all_bodies():
+        if "::task::map::" in b.defpath or "::task::value::" in b.defpath:
+            assign_roles_by_type(b, CLIENT_ROLES)
 
     # ---- R1a client map -------------------------------------------------------------------
     client_cb = {}
@@ -397,6 +409,32 @@ def run(ctx):
         for arm in sorted(EXPECT):
             r.check(tabs["value"].get(arm, set()) == tabs["map"].get(arm, set()), "hosted-value=hosted-map/%s" % arm, "-", "value and map downlinks make the same transition on %s" % arm,
                     "on %s the value downlink sets %s, the map downlink %s" % (arm, sorted(tabs["value"].get(arm, set())), sorted(tabs["map"].get(arm, set()))))
+
+    with ctx.rule("C08.R9", "T3", "hosted downlinks: whenever the session ends or the link is re-established the local state is emptied (no entry of an old session is folded into the next)", floor=6) as r:
+        # every site that moves dl_state to Unlinked / Stopped - the Unlinked notification, a read failure, and connect() after a write failure, which
+        # no notification announces - clears self.state on the same path; otherwise synced/updates of the next session are reported against stale entries
+        for kind, adt in (("value", "hosted::value::HostedValueDownlink"), ("map", "hosted::map::HostedMapDownlink")):
+            n = 0
+            for b in ag.all_bodies():
+                if not _suffix_match(b.meta.get("self_adt") or "", adt) or "::{closure" in b.defpath:
+                    continue
+                sets = [c for c in b.calls if c.name == "set" and c.args and describe_operand(b, c.args[0]).endswith("dl_state") and
+                        ("DlState::Unlinked" in describe_operand(b, c.args[1]) or "DlState::Stopped" in describe_operand(b, c.args[1]))]
+                if not sets:
+                    continue
+                ctx.saw(b)
+                clears = [c for c in b.calls if c.name == "clear" and c.args and (describe_operand(b, c.args[0]).endswith(".state") or describe_operand(b, c.args[0]).endswith("state"))
+                          and "DlState" in ((c.self_adt or "") + (c.trait or ""))]
+                cb = {c.block for c in clears}
+                for k, c in enumerate(sorted(sets, key=lambda x: x.block)):
+                    n += 1
+                    before = any(b.dominates(x, c.block) for x in cb)
+                    after, wit = b.must_pass([c.block], cb, targets=set(b.exits())) if cb else (False, None)
+                    fn = b.meta.get("name")
+                    r.check(before or after, "hosted-%s/%s/unlink#%d/state-cleared" % (kind, fn, k), c.loc(), "dl_state leaves the linked states and the state is emptied on the same path",
+                            "%s moves the hosted %s downlink to %s without emptying its state: when the link is established again the new session's notifications are folded on top of the old entries (synced reports keys the lane never sent, on_update gets a stale previous value)" % (fn, kind, describe_operand(b, c.args[1]).replace("()", "")))
+            if n < 3:
+                raise AnchorMissing("hosted %s downlink: expected at least 3 sites that set dl_state to Unlinked/Stopped (next_event x2, connect), found %d" % (kind, n))
 
     with ctx.rule("C08.R8", "T10", "client downlinks: the session state follows the notifications (transition table per notification and current state)", floor=8) as r:
         EXPECT = {
